@@ -1,7 +1,7 @@
 SPECIFICATION Spec
 CONSTANTS
   KeySeq <- KeySeq3
-  Vals <- Vals2
+  Vals <- Vals3
   Acts <- ActsC03
   MaxOps = 6
   DiskInits <- DiskEmpty3
